@@ -190,6 +190,17 @@ def num_fn(name, vals):
         q = q if (vals[0] >= 0) == (vals[1] >= 0) else -q
         return vals[0] - q * vals[1]
     if name.startswith('tofloat') or name.startswith('fcast'): return vals[0]
+    import re
+    mm = re.match(r'^(?:(\w+)::)?(?:(\w+)::)?(saturating|wrapping)_(add|sub|mul)<(\w*)>$', name)
+    if mm and len(vals) == 2:
+        ty = next((t for t in (mm.group(5), mm.group(1), mm.group(2)) if t in INT_TYS), None)
+        if ty is not None:
+            bits = {'i8': 8, 'u8': 8, 'i16': 16, 'u16': 16, 'i32': 32, 'u32': 32, 'i64': 64, 'u64': 64, 'i128': 128, 'u128': 128, 'isize': 64, 'usize': 64}[ty]
+            lo, hi = (-(1 << (bits - 1)), (1 << (bits - 1)) - 1) if ty.startswith('i') else (0, (1 << bits) - 1)
+            r = {'add': vals[0] + vals[1], 'sub': vals[0] - vals[1], 'mul': vals[0] * vals[1]}[mm.group(4)]
+            if mm.group(3) == 'saturating': return Fraction(min(max(r, lo), hi))
+            if r.denominator == 1:
+                return Fraction((int(r) - lo) % (1 << bits) + lo)
     raise KeyError('no numeric meaning for ' + name)
 
 
